@@ -1,6 +1,6 @@
 (* C05 -- reported tensions are the non-negative least-squares optimum with mean one.  Statements only. *)
 From Coq Require Import ZArith QArith List Bool Reals.
-From Forsys Require Import Model.Num Model.PyList Model.ForceSys Model.Cert Proofs.ForceSysProofs Proofs.CertProofs.
+From Forsys Require Import Model.Num Model.PyList Model.ForceSys Model.Cert Proofs.ForceSysProofs Proofs.CertProofs Proofs.MeanOneProofs.
 Import ListNotations.
 
 (* the augmented system of the statement *)
@@ -38,6 +38,20 @@ Proof. exact kkt_check_sound. Qed.
 Theorem C05_reinsert_identity : forall internal x, length internal = length x -> solution_no_discarded [] internal x = x.
 Proof. exact reinsert_identity. Qed.
 
+(* "for consistent systems the mean reported tension is one": when some candidate w solves the augmented system exactly, a vector
+   (x, lam) whose squared residual is no larger (the reported minimiser) solves it exactly too, and its last row then reads
+   sum of the tensions = number of interfaces *)
+Theorem C05_consistent_minimiser_is_exact : forall (A : list (list R)) (b z w : list R),
+  length b = length A -> mv ROps A w = b -> (sqn ROps (vsub ROps (mv ROps A z) b) <= sqn ROps (vsub ROps (mv ROps A w) b))%R -> mv ROps A z = b.
+Proof. exact consistent_minimiser_is_exact. Qed.
+Theorem C05_consistent_system_mean_one : forall (M : list (list R)) (x b w : list R) (lam : R),
+  length b = length M -> (0 < length x)%nat ->
+  mv ROps (raug M (length x)) w = b ++ [INR (length x)] ->
+  (sqn ROps (vsub ROps (mv ROps (raug M (length x)) (x ++ [lam])) (b ++ [INR (length x)]))
+   <= sqn ROps (vsub ROps (mv ROps (raug M (length x)) w) (b ++ [INR (length x)])))%R ->
+  (vsum ROps x / INR (length x) = 1)%R.
+Proof. exact consistent_system_mean_one. Qed.
+
 (* non-vacuity: an accepted certificate (A = identity, b = (1,2), z = (1,2)) and a rejected one (z = (0,2)) *)
 Example C05_cert_example :
   kkt_check ZOps 2 [[1;0];[0;1]]%Z [1;2]%Z [1;2]%Z 0%Z 0%Z = true /\ kkt_check ZOps 2 [[1;0];[0;1]]%Z [1;2]%Z [0;2]%Z 0%Z 0%Z = false.
@@ -49,3 +63,5 @@ Print Assumptions C05_kkt_sufficient.
 Print Assumptions C05_kkt_exact.
 Print Assumptions C05_kkt_check_sound.
 Print Assumptions C05_reinsert_identity.
+Print Assumptions C05_consistent_minimiser_is_exact.
+Print Assumptions C05_consistent_system_mean_one.
